@@ -802,4 +802,20 @@ example : ackedSt.res = [ackedSt.res.getD 0 (mkRes 9 false false 0)] ++ ackedY :
     (∀ o1 ∈ (ackedSt.res.getD 0 (mkRes 9 false false 0)).subs, o1.sess ≠ ackedO.sess) := by decide
 
 
+
+/-- every well-formedness hypothesis used by the global theorems holds in EVERY state reachable from an initial state whose
+    resources have pairwise distinct ids, no subscribers and are not dirty -/
+theorem reachable_invariants_init (res : List Res) (stTicks : Nat) (evs : List Event) (hids : (res.map (·.id)).Nodup)
+    (h : ∀ y ∈ res, y.subs = [] ∧ y.dirty = false) :
+    IdsNodup (run (init res stTicks) evs).1 ∧ NoDupSt (run (init res stTicks) evs).1 ∧ FailZero (run (init res stTicks) evs).1 ∧
+    RefInv (run (init res stTicks) evs).1 ∧ Wake (run (init res stTicks) evs).1 ∧
+    (∀ y ∈ (run (init res stTicks) evs).1.res, NonCntOk y) := by
+  have hsubs : ∀ y ∈ res, y.subs = [] := fun y hy => (h y hy).1
+  obtain ⟨h1, h2, h3⟩ := invariants_of_init res stTicks evs hids hsubs
+  exact ⟨h1, h2, h3, run_refInv _ evs hids (init_refInv res stTicks hsubs), run_wake _ evs hids (wake_init res stTicks h),
+    run_nonCntOk _ evs hids (fun z hz o ho => by rw [show z.subs = [] from hsubs z hz] at ho; cases ho)⟩
+
+example : ([mkRes 0 false false 16777214, mkRes 1 true false 7].map (·.id)).Nodup ∧
+    ∀ y ∈ [mkRes 0 false false 16777214, mkRes 1 true false 7], y.subs = [] ∧ y.dirty = false := by decide
+
 end Coap.C11
